@@ -1535,6 +1535,13 @@ func (c *Ctx) RuleFsSame(commands []string) *Result {
 					}
 				})
 				if eq == nil {
+					// the check may live in a helper that is handed the path and the data and whose verdict is returned as it is
+					if why, ok := c.sameInHelper(w, data); ok {
+						if why != "" {
+							problems = append(problems, why)
+						}
+						continue
+					}
 					problems = append(problems, "no bytes.Equal(<contents read from the written path>, <bytes passed to the write>) in "+where+": the check verdict is not about the bytes the rewrite would write")
 					continue
 				}
@@ -1592,6 +1599,102 @@ func (c *Ctx) RuleFsSame(commands []string) *Result {
 		}
 	}
 	return res
+}
+
+// sameInHelper: the per-file function hands path and data to a helper that
+// compares bytes.Equal(ReadFile(path), data) and returns the verdict, and the
+// per-file function returns what the helper returned. found reports whether
+// such a helper exists; why is non-empty when its verdict is wrong.
+func (c *Ctx) sameInHelper(w *writeCtx, data ssa.Value) (why string, found bool) {
+	allInstrs(w.fn, func(in ssa.Instruction) {
+		call, ok := in.(*ssa.Call)
+		if !ok || found {
+			return
+		}
+		H := staticFn(&call.Call)
+		if H == nil || !c.P.IsRepoFn(H) || len(H.Blocks) == 0 || !fnHasErrResult(H) {
+			return
+		}
+		di, pi := -1, -1
+		for i, a := range call.Call.Args {
+			if stripConv(a) == data {
+				di = i
+			}
+			if a == w.pathV {
+				pi = i
+			}
+		}
+		if di < 0 || pi < 0 || di >= len(H.Params) || pi >= len(H.Params) {
+			return
+		}
+		var eq *ssa.Call
+		allInstrs(H, func(in2 ssa.Instruction) {
+			c2, ok := in2.(*ssa.Call)
+			if !ok || !isFn(staticCallee(&c2.Call), "bytes", "Equal") {
+				return
+			}
+			a, b := stripConv(c2.Call.Args[0]), stripConv(c2.Call.Args[1])
+			var other ssa.Value
+			switch {
+			case a == ssa.Value(H.Params[di]):
+				other = b
+			case b == ssa.Value(H.Params[di]):
+				other = a
+			default:
+				return
+			}
+			if ex, ok := other.(*ssa.Extract); ok && ex.Index == 0 {
+				if rc, ok := ex.Tuple.(*ssa.Call); ok && isFn(staticCallee(&rc.Call), "os", "ReadFile") && rc.Call.Args[0] == ssa.Value(H.Params[pi]) {
+					eq = c2
+				}
+			}
+		})
+		if eq == nil {
+			return
+		}
+		found = true
+		// the caller returns the helper's verdict
+		returned := false
+		for _, r := range referrers(call) {
+			if _, ok := r.(*ssa.Return); ok {
+				returned = true
+			}
+			if ph, ok := r.(*ssa.Phi); ok {
+				for _, rr := range referrers(ph) {
+					if _, ok := rr.(*ssa.Return); ok {
+						returned = true
+					}
+				}
+			}
+		}
+		if !returned {
+			why = load.FnName(w.fn) + " does not return the verdict of " + load.FnName(H)
+			return
+		}
+		env := newEnvAt(eq.Block())
+		env.bools = map[ssa.Value]bool{eq: false}
+		c.explore(eq.Block(), instrIndex(eq)+1, env, exploreCB{
+			ret: func(r *ssa.Return, e *pathEnv) {
+				if e.nilnessOf(retErrOperand(r)) != nonNil && why == "" {
+					why = fmt.Sprintf("with --check and differing contents %s can return success at %s", load.FnName(H), c.P.InstrPos(r))
+				}
+			},
+		})
+		env2 := newEnvAt(eq.Block())
+		env2.bools = map[ssa.Value]bool{eq: true}
+		okNil := false
+		c.explore(eq.Block(), instrIndex(eq)+1, env2, exploreCB{
+			ret: func(r *ssa.Return, e *pathEnv) {
+				if e.nilnessOf(retErrOperand(r)) == isNil {
+					okNil = true
+				}
+			},
+		})
+		if !okNil && why == "" {
+			why = "with --check and identical contents " + load.FnName(H) + " never returns success"
+		}
+	})
+	return why, found
 }
 
 func uniq(xs []string) []string {
